@@ -1,6 +1,8 @@
 import Walrus.Proofs.Sem
 import Walrus.Proofs.Rename
 import Walrus.Proofs.Bridge
+import Walrus.Proofs.AgreeMaps
+import Walrus.CodeMaps
 
 /-!
 # C01 — parse → emit preserves execution behaviour
@@ -103,6 +105,35 @@ theorem written_body_is_ren_elide_of_source (e : PEnv) (m : IdMaps) (ρ : Ren) (
     structureBody (ops.map (·.2) ++ [⟨"End", []⟩]) = some (t.elide.ren ρ) :=
   round_trip_reads_as_ren_elide e m ρ body hw endLoc ops u ho t ht ha
 
+/-- **the written body is `ren (elide source)` for the renumbering the maps themselves induce** —
+    no hypothesis about the maps is left to evaluate: for every well-nested body of operators of the
+    decoder's shape (`PL.Shaped` of the live part: labels on branches, a function on calls and `ref.func`, a type and
+    a table on indirect calls, a local on the local operators, memarg offsets below 2^32) that
+    `emit ∘ parse` answers for, with maps that keep tables, globals, memories and segments in place
+    (emission without a pass), what is written reads back as the source tree with `nop`s and dead
+    code gone and functions, types, locals and block types renumbered by `renOfMaps` -/
+theorem written_body_is_ren_elide_by_the_emission_maps (e : PEnv) (m : IdMaps)
+    (hid : ∀ sp i, idSpace sp = true → m.get sp i = some i) (body : PL) (hw : body.WF) (hsh : body.live.Shaped)
+    (endLoc : Nat) (ops : List (Nat × Op)) (u : Bool) (ho : outL e m false body = some (ops, u)) :
+    structureBody (ops.map (·.2) ++ [⟨"End", []⟩]) = some (body.toSem.elide.ren (renOfMaps e m)) :=
+  round_trip_reads_as_ren_elide e m (renOfMaps e m) body hw endLoc ops u ho body.toSem
+    (source_reads_as_toSem body hw endLoc) (emission_maps_agree e m hid body hw hsh ops u ho)
+
+/-- the same with the shape hypothesis in its decidable form (`PL.shapedB`), which `rentie` evaluates
+    for every function of every case -/
+theorem written_body_is_ren_elide_by_the_emission_maps_checked (e : PEnv) (m : IdMaps)
+    (hid : ∀ sp i, idSpace sp = true → m.get sp i = some i) (body : PL) (hw : body.WF) (hsh : body.live.shapedB = true)
+    (endLoc : Nat) (ops : List (Nat × Op)) (u : Bool) (ho : outL e m false body = some (ops, u)) :
+    structureBody (ops.map (·.2) ++ [⟨"End", []⟩]) = some (body.toSem.elide.ren (renOfMaps e m)) :=
+  written_body_is_ren_elide_by_the_emission_maps e m hid body hw (shapedB_L body.live hsh) endLoc ops u ho
+
+/-- the maps of an emission without a pass keep tables, globals, memories and segments in place -/
+theorem plain_emission_maps_are_identity_outside_f_y_x (c : InCode) (pfs : List ParsedFunc) (lmap : List (Nat × Nat))
+    (sp : String) (i : Nat) (h : idSpace sp = true) :
+    (mapsOf c pfs (keepAll c pfs.length) lmap).get sp i = some i := by
+  simp only [idSpace, Bool.or_eq_true, decide_eq_true_eq] at h
+  rcases h with (((h | h) | h) | h) | h <;> (subst h; simp [mapsOf, keepAll, IdMaps.get])
+
 /-- … and so the written body executes exactly as the source body, in every state, for any meaning
     of calls and loop re-entry that is related the way `invoke_ren` and `invoke_elide` relate them -/
 theorem written_body_behaves_as_source (e : PEnv) (m : IdMaps) (ρ : Ren) (body : PL) (hw : body.WF)
@@ -141,6 +172,8 @@ example : srcBody.WF ∧ agreeL srcEnv srcMaps srcRen srcBody.toSem.elide = true
       [⟨"Call", [.ref "f" 0]⟩, ⟨"Block", [.bt .empty]⟩, ⟨"Br", [.ref "l" 0]⟩, ⟨"End", []⟩,
        ⟨"I32Const", [.num 1]⟩, ⟨"If", [.bt .empty]⟩, ⟨"Call", [.ref "f" 1]⟩, ⟨"Else", []⟩, ⟨"End", []⟩] := by
   refine ⟨by simp [srcBody, PL.WF, PI.WF, isStructural], by decide, by decide⟩
+
+example : srcBody.live.shapedB = true := by decide
 
 -- non-vacuity: elision does remove instructions, including a nested block after a branch
 def sampleBody : SL := SL.ofList
